@@ -74,7 +74,7 @@ package handler
 //@   tags C02,C04,C05,C13
 //@   any k int
 //@   requires h != nil && h.Copier != nil && wfState(ctx) && w != nil && isconn[wsink(w)] && limit >= 0
-//@   wrapok int64(offset)
+//@   wrapok conv:uint64->int64
 //@   modifies fpos, limbase, wn[wsink(w)], wdata[wsink(w)], iofaults
 //@   ensures[C05] fsw == old(fsw) @no-write
 //@   ensures[C13] fopen == old(fopen) @no-handle-change
@@ -115,7 +115,7 @@ package handler
 //@   tags C05,C04,C13
 //@   any k int
 //@   requires h != nil && h.Copier != nil && ctx != nil && data != nil
-//@   wrapok int32(written)
+//@   wrapok conv:int64->int32
 //@   modifies wn[wsink(ctx.State.WOFile)], wdata[wsink(ctx.State.WOFile)], fpos, iofaults, fsw
 //@   ensures[C05] !h.AllowWrite ==> err == ErrWriteForbidden && fsw == old(fsw) && wn == old(wn) @refused
 //@   ensures[C05] err == nil ==> ctx.State.WOFile != nil && wn[wsink(ctx.State.WOFile)] - old(wn[wsink(ctx.State.WOFile)]) >= 0 @stored-length
@@ -208,8 +208,8 @@ package handler
 //@   tags C02,C04,C05,C13
 //@   any k int
 //@   requires h != nil && wfState(ctx) && wr != nil
-//@   wrapok int64(offset)
-//@   wrapok int32(n)
+//@   wrapok conv:uint64->int64
+//@   wrapok conv:int64->int32
 //@   modifies fpos, limbase, wn[wsink(wr)], wdata[wsink(wr)], rwhdr[wr], iofaults, repr(wr)
 //@   let u = wsink(wr)
 //@   let o = wn[wsink(wr)]
